@@ -19,13 +19,32 @@ def list_packages(project, root, filename):
     return sorted(r for r in project.list_packages(root))
 
 
+def starts_statement(lines, lineno):
+    # type: (list[str], int) -> bool
+    """Is a physical line the beginning of a statement
+
+    Not after a backslash, inside brackets or a string:
+    raise E \\ from exc / (yield from gen)"""
+    import io
+    import tokenize
+    text = '\n'.join(lines[:lineno - 1]) + '\n'
+    try:
+        for _ in tokenize.generate_tokens(io.StringIO(text).readline):
+            pass
+    except tokenize.TokenError:
+        return False  # EOF in multi-line statement / string
+    except (SyntaxError, ValueError):
+        pass
+    return True
+
+
 def assist(project, source, position, filename=None, debug=False):
     source = Source(source, filename, position)
     ctx = EvalCtx(project)
     ln, col = position
     line = source.lines[ln - 1][:col]
     match = re.match(r'\s*from\s+([.\w]*)$', line)
-    if match:
+    if match and starts_statement(source.lines, ln):
         # the cursor is in the module name of a from-import
         iname = match.group(1)
         package, sep, prefix = iname.rpartition('.')
